@@ -1144,7 +1144,9 @@ func (m *MapPollard) ingest(delHashes []Hash, proof Proof) error {
 
 	// Calculate and ingest the proof.
 	proofPos, _ := ProofPositions(hnp.positions, m.NumLeaves, m.TotalRows)
-	if TreeRows(m.NumLeaves) != m.TotalRows && len(proofPos) != len(proof.Proof) {
+	// Only trim when there are fewer proof hashes than positions. A verified proof
+	// may carry trailing unused hashes and all the positions are needed then.
+	if TreeRows(m.NumLeaves) != m.TotalRows && len(proofPos) > len(proof.Proof) {
 		proofPos = m.trimProofPos(proofPos, m.NumLeaves)
 	}
 	for i, pos := range proofPos {
